@@ -448,6 +448,7 @@ def run_scenario(sc, ghost=False, debug=False):
             except Exception as e:
                 tr.close_raised = repr(e)
                 return
+            tr.close_d = d
 
             def close_fired(r):
                 tr.close_fired.append((clock.seconds(), repr(r)[:80]))
